@@ -142,18 +142,32 @@ def js_receive_buffer_args(ck, rule, facts):
             for role, txt in (("size", mm.group(1)), ("align", mm.group(2))):
                 nm = txt.strip().split(":")[0]
                 d = defs.get(locs.get(nm))
-                init = d[1] if d and d[0] == "expr" else None
-                if init is None:
+                inits = [d[1]] if d and d[0] == "expr" else []
+                if d and d[0] == "param":
+                    # the buffer is allocated by a helper: what its callers pass at that position
+                    ps_ = [q.get("id") for q in g["hir"].get("params") or [] if isinstance(q, dict)]
+                    j_ = ps_.index(locs.get(nm)) if locs.get(nm) in ps_ else None
+                    for h_ in C.fns_inl(tool, f, 1):
+                        hdefs_ = flow.defs_of(h_)
+                        for c_ in C.walk(C.fn_body(h_)):
+                            if c_.get("k") in ("call", "mcall") and C.norm_path(c_.get("p") or C.callee(c_) or "") == C.norm_path(g["path"]) and j_ is not None:
+                                args_ = ([c_["recv"]] + list(c_.get("a") or [])) if c_.get("k") == "mcall" else list(c_.get("a") or [])
+                                if j_ < len(args_):
+                                    a0 = C.strip(args_[j_])
+                                    d2 = hdefs_.get(a0.get("id")) if a0.get("k") == "local" else None
+                                    inits.append(d2[1] if d2 and d2[0] == "expr" else a0)
+                if not inits:
                     ck.bad(rule, "js::receive-buffer/%s#%d" % (role, n_sites), "`%s` is not a local computed in %s" % (nm, g["name"]), C.loc(g, m_.get("ln")))
                     continue
+                init = {"k": "tup", "a": inits}
                 calls = [(x.get("m") or (C.callee(x) or "").split("::")[-1]) for x in C.walk(init) if x.get("k") in ("mcall", "call")]
                 reads = [c_ for c_ in calls if c_ == role]
                 clamps = [c_ for c_ in calls if c_ in ("min", "clamp", "saturating_sub", "next_power_of_two", "trailing_zeros")]
                 ck.expect(bool(reads) and not clamps, rule, "js::receive-buffer/%s#%d" % (role, n_sites), "from Layout::%s()" % role,
                           "the %s given to `new DiplomatReceiveBuf(..)` is %s: it must be the returned type's Layout::%s() (an 8-aligned struct placed in a 4-aligned buffer is read through a "
                           "misaligned typed array; a smaller buffer is overrun by the callee)" % (role, "clamped by " + clamps[0] if clamps else "not read from the layout", role), C.loc(g, m_.get("ln")))
-    if n_sites < 2:
-        ck.bad(rule, "js::receive-buffer/floor", "only %d `new DiplomatReceiveBuf(..)` sites found in gen_c_to_js_for_return_type (2 counted)" % n_sites)
+    if n_sites < 1:
+        ck.bad(rule, "js::receive-buffer/floor", "no `new DiplomatReceiveBuf(..)` site found under gen_c_to_js_for_return_type (2 counted; 1 when a helper allocates for both shapes)")
 
 
 def _split_top(argstr):
